@@ -93,7 +93,7 @@ func VerifC14Reuse() {
 	limit := verifrt.IntRange("max_response_body", 1, 4)
 	mw, err := newSizeLimitMiddleware("size_limit", map[string]interface{}{"max_response_body": limit})
 	verifrt.Assert(err == nil, "a positive limit is accepted")
-	var sizes [2]int
+	var sizes, firsts [2]int
 	cur := 0
 	h := mw(http.HandlerFunc(func(w http.ResponseWriter, r *http.Request) {
 		w.Header().Set("Content-Type", "text/plain")
@@ -102,6 +102,7 @@ func VerifC14Reuse() {
 		if n > 1 && verifrt.Bool("twoWrites") {
 			first = 1
 		}
+		firsts[cur] = first
 		if first > 0 {
 			w.Write([]byte(verifPayload[:first]))
 		}
@@ -118,6 +119,9 @@ func VerifC14Reuse() {
 		verifrt.Assert(len(rec.body) <= limit, "the client never receives more than max_response_body bytes (request after request)")
 		if sizes[i] <= limit {
 			verifrt.Assert(rec.status == http.StatusOK && string(rec.body) == verifPayload[:sizes[i]], "an exchange within the limit passes through unchanged, whatever the previous exchange on the same plugin instance did")
+		}
+		if firsts[i] > limit {
+			verifrt.Assert(rec.status == http.StatusRequestEntityTooLarge && len(rec.body) == 0, "a response whose first write already exceeds the limit is answered 413 - every time, also right after another violation on the same plugin instance")
 		}
 	}
 }
